@@ -8,6 +8,8 @@ import (
 	"os"
 	"path/filepath"
 	"runtime"
+	"runtime/debug"
+	"runtime/pprof"
 	"sort"
 	"strconv"
 	"strings"
@@ -25,6 +27,11 @@ func usage() {
 }
 
 func main() {
+	// the live heap is dominated by the SSA of all dependencies; collecting
+	// less often is worth far more than the memory it costs
+	if os.Getenv("GOGC") == "" {
+		debug.SetGCPercent(800)
+	}
 	if len(os.Args) < 2 {
 		usage()
 	}
@@ -88,6 +95,7 @@ func cmdJob(args []string) int {
 	native := fs.Bool("native", false, "validate sampled paths natively")
 	x := fs.Int("x", 0, "cross-check every n-th unsat")
 	maxPaths := fs.Int("maxpaths", 0, "")
+	prof := fs.String("cpuprofile", "", "write cpu profile")
 	fs.Parse(args)
 	t0 := time.Now()
 	w, err := loadWorld()
@@ -96,6 +104,11 @@ func cmdJob(args []string) int {
 		return 2
 	}
 	fmt.Printf("load+ssa %.1fs\n", time.Since(t0).Seconds())
+	if *prof != "" {
+		f, _ := os.Create(*prof)
+		pprof.StartCPUProfile(f)
+		defer pprof.StopCPUProfile()
+	}
 	cfg := &RunConfig{Tier: "quick", Workers: *workers, Verbose: *verbose, TLimitMs: 60000, ValidateCap: 50, XEvery: *x, MaxPaths: *maxPaths}
 	job := &Job{Prop: "CXX", Family: *fn, Fn: *fn, Args: parseArgs(*argStr), OrderMode: *order, Split: *split, StepBudget: *budget}
 	t1 := time.Now()
